@@ -103,6 +103,8 @@ pub struct ExecReport {
     pub degraded: bool,
     #[serde(default)]
     pub engine: String,
+    #[serde(default)]
+    pub digest_mismatch: bool,
     /// FNV-64 of every distinct program text / file tree this execution compiled
     #[serde(default)]
     pub prog_keys: Vec<u64>,
@@ -375,11 +377,11 @@ fn run_one(plan: &Plan, refs: &mut RefTable, rerun: bool, want_sample: bool) -> 
                     rep.viol.push(v);
                     rep.rerun_same = Some(false);
                 } else if o2.digest != out.digest {
-                    rep.herr = Some(format!(
-                        "event-log digest differs between two identically seeded executions ({:016x} vs {:016x}) although outputs agree",
-                        out.digest, o2.digest
-                    ));
+                    // Same outputs, different event order: something in the process runs
+                    // outside the simulator's control (the library started threads of its
+                    // own, say). Not a violation by itself and not a reason to stop; counted.
                     rep.rerun_same = Some(false);
+                    rep.digest_mismatch = true;
                 } else {
                     rep.rerun_same = Some(true);
                 }
